@@ -956,6 +956,9 @@ def adversary_runs(kt, name):
         "cv_other_key_stop_at_alert": [("server_hello", {}), ("encrypted_extensions", {}), ("certificate", {}),
                                        ("certificate_verify", {"key": "other"}), ("finished", {})],
         "cv_omitted": [("server_hello", {}), ("encrypted_extensions", {}), ("certificate", {}), ("finished", {})],
+        # RFC 8446 4.4.2: the server's certificate_list MUST be non-empty; nothing was authenticated
+        "cert_empty_then_finished": [("server_hello", {}), ("encrypted_extensions", {}), ("certificate", {"chain": []}),
+                                     ("finished", {})],
         "psk_not_offered": [("server_hello", {"psk_index": 0}), ("encrypted_extensions", {}), ("finished", {})],
         # no PSK at all, but EncryptedExtensions claims that early data was accepted; then Finished
         # (MAC under the plain (EC)DHE schedule, which any peer can compute)
